@@ -40,7 +40,11 @@ ZONE_KEYS = [
 
 META["explanation"] += " " + '(REC-bound, shared with C05) call-graph rule: every cycle among the functions of Template.hpp that take the text is cut by a call that passes depth + k and is reached only on the true edge of depth < CONST -- parseExpressions/parseValue recurse once per parenthesis and carry such a depth; the recursion of render()/evaluate() runs over the parsed records, whose depth the parser bounds.'
 
-def run(ctx):
+META["explanation"] += " " + 'Taken over unchanged from other modules because a seeded change to this property was reported by them (rules.common.shared): PR-looptag from C02.'
+
+META["explanation"] += " " + 'Also taken over (a rule id already present here is kept as id/module): BORROW from C16.'
+
+def _run_own(ctx):
     m = ctx.pattern()
     rules = {
         "ZB-read": Rule("ZB-read", "every raw read of the template buffer / value string is proven in bounds on every path", floor=60),
@@ -221,3 +225,15 @@ def find_next(ctx, m):
              "match_ == 0" if no_match else ("offset_ <= length_" if in_bound else "neither match_ == 0 nor offset_ <= length_ is known"),
              f.loc(last[-1]) if last else "")
     return r
+
+
+def run(ctx):
+    rules_ = list(_run_own(ctx) or [])
+    from rules.common import shared
+    have = set(r_.rid for r_ in rules_)
+    rules_ += [r_ for r_ in shared(ctx, 'C02', ['PR-looptag']) if r_.rid not in have]
+    for r_ in shared(ctx, 'C16', ['BORROW']):
+        if r_.rid in set(x.rid for x in rules_):
+            r_.rid = r_.rid + "/C16"
+        rules_.append(r_)
+    return rules_
